@@ -412,8 +412,15 @@ class AnsiString:
                         del settings_point.rem[i]
 
                 if idx == end:
-                    if end != len(self._s):
-                        settings_point.add += removed_settings
+                    if end != len(self._s) and removed_settings:
+                        # Restore the original order of everything from the first re-added setting onwards
+                        original = current_settings[:len(current_settings) - len(settings_point.add)]
+                        first = min(__class__._find_setting_reference(s, original) for s in removed_settings)
+                        restart = original[first:]
+                        settings_point.rem.extend(
+                            s for s in restart if __class__._find_setting_reference(s, removed_settings) < 0
+                        )
+                        settings_point.add[:0] = restart
                 else:
                     for i in reversed(range(len(settings_point.add))):
                         if ansi_settings is None or settings_point.add[i] in ansi_settings:
